@@ -16,8 +16,30 @@ fn lower(s: &str) -> String {
 }
 
 /// canonical form under a text comparator (false: ==, true: ASCII case-insensitive)
+thread_local! {
+    /// what "ci = true" means at the moment: 1 = ASCII case ignored, 2 = spaces ignored (a comparison
+    /// that equates strings of different length)
+    static LOOSE_MODE: std::cell::Cell<u8> = std::cell::Cell::new(1);
+}
+
+fn loose(s: &str) -> String {
+    if LOOSE_MODE.with(|m| m.get()) == 2 {
+        s.chars().filter(|c| *c != ' ').collect()
+    } else {
+        lower(s)
+    }
+}
+
+fn loose_eq(x: &str, y: &str) -> bool {
+    if LOOSE_MODE.with(|m| m.get()) == 2 {
+        loose(x) == loose(y)
+    } else {
+        x.eq_ignore_ascii_case(y)
+    }
+}
+
 fn canon_ci(n: &ANode, ci: bool) -> Canon {
-    let f = |s: &str| if ci { lower(s) } else { s.to_string() };
+    let f = |s: &str| if ci { loose(s) } else { s.to_string() };
     match n {
         ANode::Document(c) => Canon::Document(c.iter().map(|c| canon_ci(c, ci)).collect()),
         ANode::Element(e) => {
@@ -50,7 +72,7 @@ fn strip_xpath(n: &ANode) -> ANode {
 
 /// value of a node alone (for edge comparison / shallow equality)
 fn shallow(n: &ANode, ci: bool, ignore: &[QName]) -> Canon {
-    let f = |s: &str| if ci { lower(s) } else { s.to_string() };
+    let f = |s: &str| if ci { loose(s) } else { s.to_string() };
     match n {
         ANode::Document(_) => Canon::Document(vec![]),
         ANode::Element(e) => {
@@ -296,7 +318,8 @@ fn check_pair(xot: &mut Xot, a: &ANode, b: &ANode, na: Node, nb: Node, src: &mut
         }
     }
     // deep_equal_xpath with two comparators
-    for ci in [false, true] {
+    for (ci, mode) in [(false, 1u8), (true, 1), (true, 2)] {
+        LOOSE_MODE.with(|m| m.set(mode));
         let both_containers = matches!((a, b), (ANode::Element(_), ANode::Element(_)) | (ANode::Document(_), ANode::Document(_)));
         let want = if both_containers {
             canon_ci(&strip_xpath(a), ci) == canon_ci(&strip_xpath(b), ci)
@@ -307,20 +330,24 @@ fn check_pair(xot: &mut Xot, a: &ANode, b: &ANode, na: Node, nb: Node, src: &mut
         };
         let got = guarded(|| {
             if ci {
-                xot.deep_equal_xpath(na, nb, |x, y| x.eq_ignore_ascii_case(y))
+                xot.deep_equal_xpath(na, nb, loose_eq)
             } else {
                 xot.deep_equal_xpath(na, nb, |x, y| x == y)
             }
         })
         .map_err(|p| format!("deep_equal_xpath panicked: {} [{}]", p, show()))?;
         if got != want {
-            return Err(format!("deep_equal_xpath(case_insensitive={}) = {}, the model says {} [{}]", ci, got, want, show()));
+            return Err(format!("deep_equal_xpath({}) = {}, the model says {} [{}]", if !ci { "exact" } else if mode == 1 { "case-insensitive" } else { "spaces ignored" }, got, want, show()));
         }
     }
+    LOOSE_MODE.with(|m| m.set(1));
     // advanced_deep_equal with a generated filter
     let filters = [Filter::All, Filter::NoComments, Filter::NoPis, Filter::NoText, Filter::NoElementsNamedB, Filter::ElementsOnly];
     let f = filters[src.choice(filters.len())];
     let ci = src.bool();
+    // (drawn after ci) which loose comparison: ASCII case ignored, or spaces ignored
+    let mode = if ci && src.bool() { 2 } else { 1 };
+    LOOSE_MODE.with(|m| m.set(mode));
     if a.children().len() + b.children().len() > 0 || matches!(a, ANode::Element(_) | ANode::Document(_)) {
         let mut ea = vec![];
         let mut eb = vec![];
@@ -342,17 +369,18 @@ fn check_pair(xot: &mut Xot, a: &ANode, b: &ANode, na: Node, nb: Node, src: &mut
             };
             let got = guarded(|| {
                 if ci {
-                    xr.advanced_deep_equal(na, nb, flt, |x, y| x.eq_ignore_ascii_case(y))
+                    xr.advanced_deep_equal(na, nb, flt, loose_eq)
                 } else {
                     xr.advanced_deep_equal(na, nb, flt, |x, y| x == y)
                 }
             })
             .map_err(|p| format!("advanced_deep_equal panicked: {} [{}]", p, show()))?;
             if got != want {
-                return Err(format!("advanced_deep_equal(filter {:?}, ci={}) = {}, filtered edge sequences are {} [{}]", f, ci, got, if want { "equal" } else { "different" }, show()));
+                return Err(format!("advanced_deep_equal(filter {:?}, ci={}, mode={}) = {}, filtered edge sequences are {} [{}]", f, ci, mode, got, if want { "equal" } else { "different" }, show()));
             }
         }
     }
+    LOOSE_MODE.with(|m| m.set(1));
     // deep_equal_children
     {
         let ca = a.children();
